@@ -294,6 +294,9 @@ func (self *LockManagerQueue) Restructuring() error {
 		}
 	}
 
+	if tailNodeIndex < self.nodeIndex {
+		tailNodeIndex = self.nodeIndex
+	}
 	for tailNodeIndex > self.tailNodeIndex+1 {
 		self.queues[tailNodeIndex] = nil
 		self.nodeQueueSizes[tailNodeIndex] = 0
@@ -625,6 +628,9 @@ func (self *LockQueue) Restructuring() error {
 		}
 	}
 
+	if tailNodeIndex < self.nodeIndex {
+		tailNodeIndex = self.nodeIndex
+	}
 	for tailNodeIndex > self.tailNodeIndex+1 {
 		self.queues[tailNodeIndex] = nil
 		self.nodeQueueSizes[tailNodeIndex] = 0
@@ -954,6 +960,9 @@ func (self *LockCommandQueue) Restructuring() error {
 		}
 	}
 
+	if tailNodeIndex < self.nodeIndex {
+		tailNodeIndex = self.nodeIndex
+	}
 	for tailNodeIndex > self.tailNodeIndex+1 {
 		self.queues[tailNodeIndex] = nil
 		self.nodeQueueSizes[tailNodeIndex] = 0
